@@ -1,7 +1,8 @@
 (* C09 Every next() call terminates, makes progress, and never panics. *)
 From LexVerif Require Import Base CharClass RangeMap Regex Spec SpecExec LexSpec Nfa Dfa NfaToDfa NfaSem Codegen
      Runtime ScanIface RulesetSem Driver SpecDef ClassAlgProofs RuntimeProofs RuntimeLemmas ScanOkProofs
-     RulesetSemProofs LexSpecProofs LexSpecFacts EndToEnd Harness.
+     RulesetSemProofs LexSpecProofs LexSpecFacts EndToEnd EndToEndModel Instance Harness.
+From LexVerif.Gen Require Import GenTables GenConsts.
 
 (* with fuel quadratic in the remaining input no call runs out of fuel and no Panic outcome
    (failed unwrap, index, slice, missing arm) is possible *)
